@@ -20,7 +20,6 @@ import math
 import os
 import random
 import re
-import shutil
 import struct
 from concurrent.futures import ThreadPoolExecutor
 
@@ -30,8 +29,6 @@ PROPS = ["TfelVerif.C37.Props"]
 IFACES = ["c", "cxx", "generic"]
 SRC = {"c": "mfront/src/CMaterialPropertyInterfaceBase.cxx", "cxx": "mfront/src/CppMaterialPropertyInterface.cxx",
        "generic": "mfront/src/GenericMaterialPropertyInterfaceBase.cxx"}
-UNOPS = ["neg", "exp", "log", "sqrt", "sin", "cos", "tanh", "abs"]
-BINOPS = ["add", "sub", "mul", "div", "pow", "min", "max"]
 AOPS = {"=": "set", "+=": "add", "-=": "sub", "*=": "mul", "/=": "div"}
 TYPES = ["real", "temperature", "stress", "strain", "massdensity", "thermalconductivity", "length", "time"]
 GLOSSARY_IN = ["Temperature", "Porosity", "BurnUp_AtPercent", "Pressure", "GrainSize", "NeutronFluence", "HydrostaticPressure"]
@@ -112,13 +109,6 @@ class Judge:
         if k == "u":
             return self.un(t[1], self.expr(t[2], env, cur))
         return self.bin(t[1], self.expr(t[2], env, cur), self.expr(t[3], env, cur))
-
-
-def fmul(a, b):
-    try:
-        return a * b
-    except OverflowError:
-        return float("inf") if (a > 0) == (b > 0) else float("-inf")
 
 
 # ---------------------------------------------------------------- interpolation (judge side; transliterates the documented schemes)
@@ -1044,15 +1034,6 @@ def fmt_bits(h):
         return h
 
 
-def digits_needed(txt):
-    """number of significant decimal digits needed to write float(txt) so that it reads back exactly"""
-    v = float(txt)
-    for n in range(1, 18):
-        if float("%.*g" % (n, v)) == v:
-            return n
-    return 17
-
-
 # ---------------------------------------------------------------- build steps
 def mfront_env():
     dirs = set()
@@ -1464,27 +1445,3 @@ def site_file(itf, td, d):
     if kind == "law":
         return "mfront/src/MaterialPropertyDSL.cxx:treatFunction"
     return SRC[itf]
-
-
-def precision_class(d, td):
-    """for differing constants: how many digits the declared value needs (the emitted text has fewer)"""
-    kind = td[0]
-    txt = None
-    if kind == "constant-value":
-        for s in d.statics:
-            if s[0] == td[2]:
-                txt = s[3]
-        for (v, t, _) in d.params:
-            if v.name == td[2]:
-                txt = t
-    elif kind == "parameter-default" and isinstance(td[2], int) and td[2] < len(d.params):
-        txt = d.params[td[2]][1]
-    elif kind == "law" and d.law[0] == "const":
-        txt = d.law[1]
-    elif kind == "law" and d.law[0] in ("lin", "spl"):
-        n = max(digits_needed(y) for _, y in d.law[2])
-        return "table-value-needs-more-than-14-digits" if n > 14 else "table"
-    if txt is None:
-        return "structure"
-    n = digits_needed(txt)
-    return "value-needs-more-than-14-digits" if n > 14 else ("value-needs-more-than-6-digits" if n > 6 else "value")
